@@ -7,7 +7,7 @@ class Prop(c12.Prop):
     prop_file = "Props/C13.v"
     rule = c12.Prop.rule.replace("every hit is compared with the ground truth", "at every step num_items / total_bytes are compared with the tracked entries, every cache file must belong to a tracked "
                                  "entry, total_bytes <= capacity right after an insertion, and after reading every entry back the totals must equal the disk")
-    kinds = ["seq", "evict", "evict", "damage", "openwhile", "conc", "conc", "capchange", "race"]
+    kinds = ["seq", "evict", "evict", "damage", "openwhile", "conc", "conc", "capchange", "exactcap", "race"]
     allow_known = False
 
     def selfcheck(self, counters, tier):
